@@ -1628,7 +1628,41 @@ impl TcpProxy {
     pub fn remove_listener(&mut self, address: SocketAddr) -> SessionIsToBeClosed {
         let len = self.listeners.len();
 
+        let mut removed_tokens: Vec<Token> = Vec::new();
+        for (token, l) in self.listeners.iter() {
+            if l.borrow().address != address {
+                continue;
+            }
+            removed_tokens.push(*token);
+            // stop listening: sessions may keep the listener alive through their
+            // own reference, its socket must not outlive the slab entry
+            if let Some(mut sock) = l.borrow_mut().listener.take() {
+                if let Err(e) = self.registry.deregister(&mut sock) {
+                    error!(
+                        "{} error deregistering TCP listen socket({:?}): {:?}",
+                        log_module_context!(),
+                        sock,
+                        e
+                    );
+                }
+            }
+        }
         self.listeners.retain(|_, l| l.borrow().address != address);
+        // Free the listen token's slab entry, as DeactivateListener does (see
+        // `HttpProxy::remove_listener`).
+        let mut sessions = self.sessions.borrow_mut();
+        for token in removed_tokens {
+            // a deactivated listener gave its slot back already and the key may
+            // have been reused since: only a listen entry of our kind is ours
+            if sessions
+                .slab
+                .get(token.0)
+                .is_some_and(|s| s.borrow().protocol() == Protocol::TCPListen)
+            {
+                sessions.slab.remove(token.0);
+            }
+        }
+        drop(sessions);
         self.listeners.len() < len
     }
 
